@@ -928,6 +928,22 @@ def _third_batch(ctx):
                                'would put it back on the schedule, and it is now dropped' % '/'.join(sorted(skipped)), fn=wq.name))
             else:
                 out.append(ok(R, key, 'every path but the WaitingForUnpark one ends in reschedule_queue (%d path summaries)' % len(snaps), fn=wq.name))
+    # ---- SchedulerFuture::poll: without a result in the slot, every poll looks at the queue (and runs it itself when nobody else does)
+    pf = F.fn('<desync::SchedulerFuture as core::future::future::Future>::poll')
+    key = 'SchedulerFuture::poll|no-result-means-look-at-the-queue'
+    if pf:
+        takes = [(bb, t) for bb, t in calls(pf, 'FutureResultState::take')]
+        dec = _decision_blocks(ctx, pf)
+        if len(takes) == 1 and dec:
+            e = result_edges(pf, takes[0][0])
+            none = edge_for(e, OPTION, 'None') if e else None
+            if none is None:
+                out.append(undecided(R, key, 'test of the taken result not recognised'))
+            elif pf.must_pass(none, set(pf.exits()), dec) or not feasible_reach(pf, none, set(pf.exits()), dec):
+                out.append(ok(R, key, 'when the slot is empty every path tests the queue state', fn=pf.name))
+            else:
+                out.append(bad(R, key, 'a poll that finds no result can return Pending without looking at the queue: if whoever was running the queue has stopped and no pool thread is free, the awaiting task is the only one who '
+                               'could run it, and it never does', fn=pf.name))
     # ---- pool thread body (the closure handed to SchedulerThread::run): it stops only when it found nothing to run, and then it is idle
     sd = F.fn('desync::SchedulerCore::schedule_dormant')
     body = None
